@@ -135,3 +135,15 @@ theorem showOctet_parseOctet (s : Bytes) (n : Octet) (h : parseOctet s = some n)
   · simp at h
 
 end Passage.NetText
+
+namespace Passage.NetText
+
+theorem noSpace_showOctet : ∀ n : Octet, (32 : UInt8) ∉ showOctet n := by decide +kernel
+
+theorem noSpace_showV4 (x : V4) : (32 : UInt8) ∉ showV4 x := by
+  have ha := noSpace_showOctet x.a; have hb := noSpace_showOctet x.b
+  have hc := noSpace_showOctet x.c; have hd := noSpace_showOctet x.d
+  simp only [showV4, List.mem_append, List.mem_cons, not_or]
+  refine ⟨ha, by decide, hb, by decide, hc, by decide, hd⟩
+
+end Passage.NetText
